@@ -12,6 +12,9 @@ theorem loop_table_eq : Gen.C16.loopTable = Train.loopTable := by decide
 /-- "`zero_grad` occurs only inside the step branch, after the optimiser step" (and the rest of `wfLoop`) -/
 theorem loop_table_wf : wfLoop Gen.C16.loopTable = true := by decide
 
+/-- every engine class of direct/nn only *adds* its batch's gradient to `.grad` (`wfEngine`): what `Ops.grad` stands for -/
+theorem engine_rows_wf : wfEngines engineRows = true := by decide
+
 /-- `(iter_idx + 1) % gradient_steps == 0` -/
 theorem step_guard_eq (it k : Nat) : step_guard (it : Int) (k : Int) = evalGuard { k := k } it .stepBranch := by
   simp only [step_guard, evalGuard]
